@@ -48,7 +48,7 @@ fn exec(case: &[Tok]) -> Vec<Tok> {
     assert!(case[14].u() == page);
     let ioctl_ok = case[15].u() != 0;
     // keep the number of grant references an emulated request can carry small
-    assert!(size as u64 <= (1 << 30) || (mflags & 3) == 0 || mflags > 0xB);
+    assert!(size as u64 <= (1 << 30) || !(hasfile && start == 0 && (mflags == 1 || mflags == 2)));
 
     dev_install();
     dev_reset(!ioctl_ok);
